@@ -44,9 +44,10 @@ type Case struct {
 	Seed       uint64           `json:"seed"`
 	Regime     int              `json:"regime"`
 	Opts       chaingen.GenOpts `json:"opts"`
-	Foundation bool             `json:"foundation"` // the wallet address is the foundation's primary address
-	Rotate     bool             `json:"rotate"`     // a subsidy every 3 blocks; the foundation address starts with the wallet (Foundation) or the other party and is passed on by address updates
-	Gen        int              `json:"gen"`        // generator version: 0 chaingen.GenW, 2 chaingen.GenW2 (pass-through blocks)
+	Foundation bool             `json:"foundation"`      // the wallet address is the foundation's primary address
+	Rotate     bool             `json:"rotate"`          // a subsidy every 3 blocks; the foundation address starts with the wallet (Foundation) or the other party and is passed on by address updates
+	Split      bool             `json:"split,omitempty"` // v1 blocks with the reward split over two miner payouts (wallet second, or both)
+	Gen        int              `json:"gen"`             // generator version: 0 chaingen.GenW, 2 chaingen.GenW2 (pass-through blocks)
 	Evs        []Ev             `json:"evs"`
 }
 
@@ -70,7 +71,7 @@ func (c Case) tree() (t *chaingen.Tree) {
 		}
 	}
 	if c.Gen >= 2 {
-		return chaingen.GenW2(r, env, c.Opts)
+		return chaingen.GenW2With(r, env, c.Opts, chaingen.W2Opts{SplitPayouts: c.Split})
 	}
 	return chaingen.GenW(r, env, c.Opts)
 }
@@ -552,7 +553,7 @@ func genCase(r *rng.R, regime int) (Case, *chaingen.Tree) {
 	var cs Case
 	var t *chaingen.Tree
 	for t == nil {
-		cs = Case{Seed: r.U64(), Regime: regime, Gen: 2, Foundation: r.Chance(1, 3), Rotate: r.Chance(1, 3), Opts: chaingen.GenOpts{Blocks: 6 + r.Intn(14), Branchiness: 2 + r.Intn(4), TxPerBlock: 2 + r.Intn(4), Corruptions: r.Intn(2), Jitter: r.Intn(3)}}
+		cs = Case{Seed: r.U64(), Regime: regime, Gen: 2, Foundation: r.Chance(1, 3), Rotate: r.Chance(1, 3), Split: regime%3 != 2 && r.Bool(), Opts: chaingen.GenOpts{Blocks: 6 + r.Intn(14), Branchiness: 2 + r.Intn(4), TxPerBlock: 2 + r.Intn(4), Corruptions: r.Intn(2), Jitter: r.Intn(3)}}
 		if regime >= 3 && r.Bool() {
 			cs.Opts.Jitter = 4000
 		}
